@@ -311,6 +311,11 @@ func (p *Program) declareFamily(fd *FamilyDecl, pkgName string) error {
 	case "bytes":
 		fam.ValSort = SBytes
 		fam.Enc = "raw"
+	case "sdk.Coin":
+		fam.ValSort = SCoin
+		if fam.Enc == "" {
+			fam.Enc = "proto"
+		}
 	case "unit", "":
 		fam.ValSort = SBool
 		fam.Enc = "unit"
